@@ -1,8 +1,30 @@
 """C14 -- function-term mode prints the same program with foreign keys wrapped."""
+import os
+import shutil
+import subprocess
+
 import common
+import impl
 import stream
 import aspast
 from common import Report, coq_str
+
+MAIN = os.path.join(common.REPO, 'src', 'main.py')
+
+
+def cli_output(idx, text, flags):
+    """stdout of the command line on a file holding `text` (None when it fails)"""
+    d = os.path.join(common.WORK, 'c14cli%d' % idx)
+    os.makedirs(d, exist_ok=True)
+    try:
+        inp = os.path.join(d, 'in.cnl')
+        open(inp, 'w').write(text)
+        env = dict(os.environ, PYTHONHASHSEED='0')
+        env.pop('PYTHONPATH', None)
+        p = subprocess.run([common.PY, MAIN] + flags + [inp], stdout=subprocess.PIPE, stderr=subprocess.PIPE, text=True, timeout=600, env=env, cwd=d)
+        return p.stdout if p.returncode == 0 else None
+    finally:
+        shutil.rmtree(d, ignore_errors=True)
 
 PID = 'C14'
 PRE = 'Require Import Cnl2aspV.Gen.Operators Cnl2aspV.Asp.Syntax Cnl2aspV.Asp.Print Cnl2aspV.Asp.PrintCases.'
@@ -62,13 +84,25 @@ def run(tier, seed):
         d = compare_modes(flat, fn)
         if d:
             rep.violation('function-term mode is not the default program with wrapped groups: ' + d, dict(text=text, default=flat, with_functions=fn))
+    # the command-line option must select the same mode as the API flag
+    wrapped = [m for m in meta if m['fn'] != m['flat']]
+    cli_sel = [m for m in wrapped if m['name'].startswith('regressions/c14_')] + wrapped[:(6 if tier == 'thorough' else 2)]
+    for k, m in enumerate(cli_sel):
+        for flag in ('-p', '--print-with-functions'):
+            out = cli_output(k, m['text'], [flag])
+            rep.evaluations += 1
+            if out is None or impl.norm_uuid(out).strip() != impl.norm_uuid(m['fn']).strip():
+                rep.violation('the command line option %s does not print the function-term program' % flag,
+                              dict(text=m['text'], option=flag, command_line_output=out, function_term_program=m['fn'], default_program=m['flat']))
+                break
+    rep.cov['command_line_runs'] = 2 * len(cli_sel)
     rep.sample(dict(text=meta[0]['text'], with_functions=meta[0]['fn']))
     for m in meta:
         if m['fn'] != m['flat'] and m['name'].startswith('wide'):
             rep.sample(dict(text=m['text'], with_functions=m['fn']))
             break
     tie_broken = []
-    if proof['ok']:
+    if proof['ok'] or proof['extra_ok']:
         f1 = common.run_cases(PID, 'flat', PRE, cases, 'flat_ok', shard=40)
         f2 = common.run_cases(PID, 'fn', PRE, cases, 'fn_ok', shard=40)
         if f1:
@@ -76,7 +110,7 @@ def run(tier, seed):
         if f2:
             tie_broken.append('function-mode printer model differs from the implementation on %d programs, first: %s' % (len(f2), meta[f2[0]]['name']))
         first = meta[(f1 or f2)[0]] if (f1 or f2) else None
-    else:
+    if not proof['ok']:
         tie_broken.append('theorem file does not build: %s' % proof['failed_at'])
         first = None
     if proof['bad']:
